@@ -49,6 +49,12 @@ type Plan struct {
 	// random hosts for the whole run; not part of the checked history
 	StaleReaders int
 	SlowRecoverMs int // RecoverFromSnapshot takes this long
+	SlowLookupMs  int // every 16th Lookup takes this long
+	// RestartInReadPct: percentage of SyncRead calls during which the local replica is
+	// stopped and started again while the call waits for its ReadIndex (the schedule point
+	// is the call's own ctx.Done(): the harness sleeps there until the ReadIndex has very
+	// likely completed, restarts the replica and only then lets the call look at its result)
+	RestartInReadPct int
 	// SlowReadUs: a ReadIndex client waits up to this long between the completion of
 	// ReadIndex and its ReadLocalNode / NAReadLocalNode call (the API allows any delay)
 	SlowReadUs int
@@ -71,6 +77,19 @@ type Plan struct {
 
 // special reports whether host index i runs the non-voting member or the witness
 func (p Plan) special(i int) bool { return (p.NonVoting || p.Witness) && i == p.Hosts-1 }
+
+// hookCtx runs fn the first time the code under test asks for the Done channel, i.e. at
+// the point where a synchronous API call starts waiting for its request's result
+type hookCtx struct {
+	context.Context
+	once sync.Once
+	fn   func()
+}
+
+func (h *hookCtx) Done() <-chan struct{} {
+	h.once.Do(h.fn)
+	return h.Context.Done()
+}
 
 type FaultKind int
 
@@ -366,6 +385,7 @@ func RunPlan(p Plan) *Result {
 	rec.Widen = time.Duration(p.WidenUs) * time.Microsecond
 	rec.SlowSnapshot = time.Duration(p.SlowSnapMs) * time.Millisecond
 	rec.SlowRecover = time.Duration(p.SlowRecoverMs) * time.Millisecond
+	rec.SlowLookup = time.Duration(p.SlowLookupMs) * time.Millisecond
 	c := NewCluster(ClusterOptions{Hosts: p.Hosts, Tan: p.Tan, Seed: 7, RTTms: 2, NotifyCommit: p.NotifyCommit})
 	res := &Result{Plan: p, Rec: rec, Flags: map[string]int{}, Cluster: c}
 	res.sent = newSendMonitor(res, c)
@@ -462,6 +482,7 @@ func RunPlan(p Plan) *Result {
 	}
 	var hostMu sync.RWMutex // protects Host.NH/Up against the fault goroutine
 	var valCtr int64
+	var restartsInRead int32 // at most 4 replica restarts inside SyncRead calls per case
 	var maxIndex uint64 // highest log index a completed proposal reported
 	stopClients := make(chan struct{})
 	var wg sync.WaitGroup
@@ -541,12 +562,40 @@ func RunPlan(p Plan) *Result {
 					} else {
 						op.Mode = "syncread"
 						ctx, cancel := context.WithTimeout(context.Background(), timeout)
-						v, err := nh.SyncRead(ctx, shardID, key)
+						var rctx context.Context = ctx
+						if p.RestartInReadPct > 0 && !p.special(hi) && rnd.intn(100) < p.RestartInReadPct && atomic.AddInt32(&restartsInRead, 1) <= 4 {
+							wait := time.Duration(2+rnd.intn(8)) * time.Millisecond
+							rctx = &hookCtx{Context: ctx, fn: func() {
+								time.Sleep(wait)
+								hostMu.Lock()
+								defer hostMu.Unlock()
+								if h := c.Hosts[hi]; h.Up && h.NH == nh {
+									if err := nh.StopReplica(shardID, uint64(hi+1)); err == nil {
+										res.flag("replica-restarted-inside-syncread")
+										var err error
+										for try := 0; try < 200; try++ {
+											time.Sleep(time.Millisecond)
+											if err = startReplica(h); err == nil {
+												break
+											}
+										}
+										if err != nil {
+											res.flag("replica-restart-failed")
+										}
+									}
+								}
+							}}
+							op.Mode = "syncread-restart"
+						}
+						v, err := nh.SyncRead(rctx, shardID, key)
 						cancel()
 						if err == nil {
 							op.Val, _ = v.(string)
 						}
 						op.Outcome, op.Ret = classifyErr(err), Now()
+						if op.Mode == "syncread-restart" {
+							res.flag("restart-read-" + strings.ReplaceAll(op.Outcome, " ", "_"))
+						}
 					}
 					res.flag("read-" + strings.SplitN(op.Outcome, ":", 2)[0])
 					continue
@@ -670,32 +719,35 @@ func RunPlan(p Plan) *Result {
 					return
 				default:
 				}
+				// (the lock only covers picking the NodeHost: a local read may still be inside the
+				// state machine when the fault plan stops, restarts or closes its replica)
 				hostMu.RLock()
 				h := c.Hosts[rnd.intn(p.Hosts)]
-				if h.Up && h.NH != nil {
+				hUp, hNH, hIdx, hInc := h.Up, h.NH, h.Idx, h.Inc
+				hostMu.RUnlock()
+				if hUp && hNH != nil {
 					key := fmt.Sprintf("k%d", rnd.intn(p.Keys))
-					if rs := kept[h.Idx]; rs != nil && keptInc[h.Idx] == h.Inc && rnd.intn(2) == 0 {
+					if rs := kept[hIdx]; rs != nil && keptInc[hIdx] == hInc && rnd.intn(2) == 0 {
 						// the no-allocation read path with a completed ReadIndex that the reader
 						// keeps using (not part of the checked history: the index is old)
-						if b, err := h.NH.NAReadLocalNode(rs, []byte(key)); err == nil {
+						if b, err := hNH.NAReadLocalNode(rs, []byte(key)); err == nil {
 							res.flag("na-read-ok")
 							// checked by the stale-read oracle only: the read may take effect anywhere
 							// between the moment its ReadIndex was issued and now
-							addOp(&Op{Client: 200 + si, Host: h.Idx, Key: key, Val: string(b), Call: keptAt[h.Idx], Ret: Now(), Outcome: "completed", Mode: "na-kept"})
+							addOp(&Op{Client: 200 + si, Host: hIdx, Key: key, Val: string(b), Call: keptAt[hIdx], Ret: Now(), Outcome: "completed", Mode: "na-kept"})
 						}
-					} else if _, err := h.NH.StaleRead(shardID, key); err == nil {
+					} else if _, err := hNH.StaleRead(shardID, key); err == nil {
 						res.flag("stale-read-ok")
 					}
-					if keptInc[h.Idx] != h.Inc || kept[h.Idx] == nil {
+					if keptInc[hIdx] != hInc || kept[hIdx] == nil {
 						at := Now()
-						if rs, err := h.NH.ReadIndex(shardID, 200*time.Millisecond); err == nil {
+						if rs, err := hNH.ReadIndex(shardID, 200*time.Millisecond); err == nil {
 							if r, got := awaitResult(rs, 200*time.Millisecond); got && r.Completed() {
-								kept[h.Idx], keptInc[h.Idx], keptAt[h.Idx] = rs, h.Inc, at
+								kept[hIdx], keptInc[hIdx], keptAt[hIdx] = rs, hInc, at
 							}
 						}
 					}
 				}
-				hostMu.RUnlock()
 				time.Sleep(100 * time.Microsecond)
 			}
 		}(si)
